@@ -1,6 +1,7 @@
 (* C11/Props.v -- property C11, the part carried by theorems: documentation blocks are attached to exactly one entity by
    the two rules, and the active parameter of signature help follows position or `keyword=`.  Statements only. *)
 From Coq Require Import ZArith String.
+From FV Require C11.DefList C11.Level.
 From FV Require Import Base.Str C11.Model C11.Proofs.
 
 (* "exactly the documentation comment attached to that entity and to no other": for every sequence of documentation blocks and
@@ -95,3 +96,45 @@ Proof.
   repeat (apply in_char; [reflexivity|]). constructor.
 Qed.
 Print Assumptions parameter_value_nonvacuous.
+
+(* "per-entity declarations": for every set of blank characters and every list of entities (parentheses and brackets balanced,
+   no comma outside them, not blank) written with commas between them, the entity reader returns the entities one by one,
+   in order, each without the blanks around it -- array specifications, constructors and initialisations included *)
+Theorem declaration_entities_read_back : forall isb l,
+  l <> [] -> Forall (fun e => DefList.entity isb e = true) l ->
+  DefList.separate isb (DefList.join_comma l) = Some (map (DefList.trim isb) l).
+Proof. exact DefList.entities_read_back. Qed.
+Print Assumptions declaration_entities_read_back.
+
+Example declaration_entities_nonvacuous :
+  let l := [[118; 97; 114]; [32; 105; 40; 51; 41; 32; 61; 32; 91; 49; 44; 50; 44; 51; 93]; [32; 97; 40; 51; 44; 51; 41; 32]]%N in
+  Forall (fun e => DefList.entity DefList.ascii_blank e = true) l /\
+  DefList.separate DefList.ascii_blank (DefList.join_comma l)
+  = Some [[118; 97; 114]; [105; 40; 51; 41; 32; 61; 32; 91; 49; 44; 50; 44; 51; 93]; [97; 40; 51; 44; 51; 41]]%N.
+Proof. exact DefList.def_list_nonvacuous. Qed.
+Print Assumptions declaration_entities_nonvacuous.
+
+(* "the active parameter is the argument index": behind any text and an opening parenthesis or bracket, with any number of
+   arguments written so far -- ordinary characters, literals (holding commas, parentheses, the other quote) and nested groups
+   (calls, sections, constructors with commas of their own) -- the index computed from the line is the number of arguments
+   written so far minus one *)
+Theorem argument_index_is_number_of_arguments_written : forall pre o l,
+  Level.is_open o = true -> l <> [] -> Forall (fun a => Level.arg_ok a = true) l ->
+  Level.argument_index (pre ++ o :: Level.join_comma (map Level.render_arg l)) = length l - 1.
+Proof. exact Level.argument_index_counts_arguments. Qed.
+Print Assumptions argument_index_is_number_of_arguments_written.
+
+(* the text of the level: the arguments without their nested groups, whatever stands in front of the parenthesis *)
+Theorem level_text_drops_nested_groups : forall pre o l,
+  Level.is_open o = true -> l <> [] -> Forall (fun a => Level.arg_ok a = true) l ->
+  Level.paren_level (pre ++ o :: Level.join_comma (map Level.render_arg l)) = Level.join_comma (map Level.top_arg l).
+Proof. exact Level.level_text. Qed.
+Print Assumptions level_text_drops_nested_groups.
+
+Example argument_index_nonvacuous :
+  let l := [[Level.Ch 97]; [Level.Ch 32; Level.Ch 102; Level.Grp 40 [49; 44; 50] 41];
+            [Level.Ch 32; Level.Lit 39 [120; 44; 40]; Level.Ch 32]; [Level.Ch 32; Level.Grp 91 [51; 44; 52] 93]]%N in
+  Forall (fun a => Level.arg_ok a = true) l /\
+  Level.argument_index ([99; 97; 108; 108; 32; 115]%N ++ Level.LPAR :: Level.join_comma (map Level.render_arg l)) = 3.
+Proof. exact Level.level_nonvacuous. Qed.
+Print Assumptions argument_index_nonvacuous.
